@@ -2,11 +2,152 @@ package main
 
 import (
 	"fmt"
+	"go/ast"
+	"go/token"
+	"sort"
+	"strconv"
 
 	"path/filepath"
 	"strings"
 	"verifharness/gen"
 )
+
+// packageLevel lists the package-level variables and the functions of a file.
+func packageLevel(f *ast.File) (vars map[string]bool, specs map[*ast.ValueSpec]bool, funcs map[string]*ast.FuncDecl) {
+	vars, specs, funcs = map[string]bool{}, map[*ast.ValueSpec]bool{}, map[string]*ast.FuncDecl{}
+	for _, d := range f.Decls {
+		switch x := d.(type) {
+		case *ast.GenDecl:
+			if x.Tok != token.VAR {
+				continue
+			}
+			for _, sp := range x.Specs {
+				if vs, ok := sp.(*ast.ValueSpec); ok {
+					specs[vs] = true
+					for _, n := range vs.Names {
+						vars[n.Name] = true
+					}
+				}
+			}
+		case *ast.FuncDecl:
+			if x.Recv == nil {
+				funcs[x.Name.Name] = x
+			}
+		}
+	}
+	return
+}
+
+// stateRefs: the package-level variables of the file that fn reads or writes, directly or through the
+// package's own plain functions it calls (transitively), as "var:<name>"; and the calls it makes, as
+// "call:<selector or name>", in source order of the function itself.
+func stateRefs(f *ast.File, fn string) (refs []string, calls []string) {
+	vars, specs, funcs := packageLevel(f)
+	seenFn := map[string]bool{}
+	seenRef := map[string]bool{}
+	var visitFn func(name string, top bool)
+	visitFn = func(name string, top bool) {
+		fd := funcs[name]
+		if fd == nil || fd.Body == nil || seenFn[name] {
+			return
+		}
+		seenFn[name] = true
+		ast.Inspect(fd.Body, func(n ast.Node) bool {
+			switch x := n.(type) {
+			case *ast.Ident:
+				if !vars[x.Name] {
+					return true
+				}
+				pkgLevel := x.Obj == nil
+				if x.Obj != nil {
+					if vs, ok := x.Obj.Decl.(*ast.ValueSpec); ok && specs[vs] {
+						pkgLevel = true
+					}
+				}
+				if pkgLevel && !seenRef[x.Name] {
+					seenRef[x.Name] = true
+					refs = append(refs, "var:"+x.Name)
+				}
+			case *ast.CallExpr:
+				switch c := x.Fun.(type) {
+				case *ast.Ident:
+					if top {
+						calls = append(calls, "call:"+c.Name)
+					}
+					if _, ok := funcs[c.Name]; ok && c.Obj != nil {
+						if _, isFn := c.Obj.Decl.(*ast.FuncDecl); isFn {
+							visitFn(c.Name, false)
+						}
+					}
+				case *ast.SelectorExpr:
+					if id, ok := c.X.(*ast.Ident); ok && top {
+						calls = append(calls, "call:"+id.Name+"."+c.Sel.Name)
+					}
+				}
+			case *ast.GoStmt:
+				refs = append(refs, "go-statement")
+			}
+			return true
+		})
+	}
+	visitFn(fn, true)
+	sort.Strings(refs)
+	return
+}
+
+// readerTable: the entries of `var wellKnownStringPatterns = map[string]string{...}` with keys and values
+// resolved (string literals, constants of the file, id62.PatternString = pat).
+func readerTable(f *ast.File, pat string) ([][2]string, error) {
+	var out [][2]string
+	found := false
+	resolve := func(e ast.Expr) (string, bool) {
+		switch x := e.(type) {
+		case *ast.BasicLit:
+			if x.Kind == token.STRING {
+				s, err := strconv.Unquote(x.Value)
+				return s, err == nil
+			}
+		case *ast.Ident:
+			return gen.StringVar(f, x.Name)
+		case *ast.SelectorExpr:
+			if id, ok := x.X.(*ast.Ident); ok && id.Name == "id62" && x.Sel.Name == "PatternString" {
+				return pat, true
+			}
+		}
+		return "", false
+	}
+	var err error
+	ast.Inspect(f, func(n ast.Node) bool {
+		vs, ok := n.(*ast.ValueSpec)
+		if !ok || len(vs.Names) != 1 || vs.Names[0].Name != "wellKnownStringPatterns" || len(vs.Values) != 1 {
+			return true
+		}
+		cl, ok := vs.Values[0].(*ast.CompositeLit)
+		if !ok {
+			return true
+		}
+		found = true
+		for _, el := range cl.Elts {
+			kv, ok := el.(*ast.KeyValueExpr)
+			if !ok {
+				err = fmt.Errorf("wellKnownStringPatterns: element is not key: value")
+				return false
+			}
+			k, ok1 := resolve(kv.Key)
+			v, ok2 := resolve(kv.Value)
+			if !ok1 || !ok2 {
+				err = fmt.Errorf("wellKnownStringPatterns: entry cannot be resolved to strings")
+				return false
+			}
+			out = append(out, [2]string{k, v})
+		}
+		return false
+	})
+	if err == nil && !found {
+		err = fmt.Errorf("schema_from_proto.go: wellKnownStringPatterns is not a map literal variable")
+	}
+	return out, err
+}
 
 func init() { gen.Register("Id62Gen.v", genId62) }
 
@@ -30,12 +171,50 @@ func genId62(repo string) (string, error) {
 		return "", err
 	}
 	var sb strings.Builder
-	sb.WriteString("From Coq Require Import List NArith.\nImport ListNotations.\nLocal Open Scope N_scope.\n")
+	sb.WriteString("From Coq Require Import String List NArith.\nImport ListNotations.\nLocal Open Scope string_scope.\nLocal Open Scope N_scope.\n")
 	fmt.Fprintf(&sb, "(* lib/id62/uuid62.go: var PatternString = %q *)\n", pat)
 	fmt.Fprintf(&sb, "Definition pattern_string : list N := %s.\n", gen.NList([]byte(pat)))
 	sb.WriteString("(* references to id62.PatternString in the compiler (fields.go) and the reader (schema_from_proto.go),\n   and literal copies of the pattern text in either *)\n")
 	fmt.Fprintf(&sb, "Definition writer_refs : N := %d.\n", gen.CountSelector(w, "id62", "PatternString"))
 	fmt.Fprintf(&sb, "Definition reader_refs : N := %d.\n", gen.CountSelector(r, "id62", "PatternString"))
 	fmt.Fprintf(&sb, "Definition literal_copies : N := %d.\n", gen.CountStringLit(w, pat)+gen.CountStringLit(r, pat))
+	// the reader's table of recognised patterns: (pattern, format), in source order
+	tab, err := readerTable(r, pat)
+	if err != nil {
+		return "", err
+	}
+	sb.WriteString("(* lib/j5schema/schema_from_proto.go: var wellKnownStringPatterns, keys and values resolved *)\n")
+	sb.WriteString("Definition reader_patterns : list (list N * list N) := [")
+	for i, e := range tab {
+		if i > 0 {
+			sb.WriteString("; ")
+		}
+		fmt.Fprintf(&sb, "(%s, %s)", gen.NList([]byte(e[0])), gen.NList([]byte(e[1])))
+	}
+	sb.WriteString("].\n")
+	idf, ok := gen.StringVar(r, "id62Format")
+	if !ok {
+		return "", fmt.Errorf("schema_from_proto.go: id62Format is not a string constant")
+	}
+	fmt.Fprintf(&sb, "Definition reader_id62_format : list N := %s.\n", gen.NList([]byte(idf)))
+	// package-level state of lib/id62 and what NewHash touches of it
+	vars, _, _ := packageLevel(f)
+	var vnames []string
+	for v := range vars {
+		vnames = append(vnames, v)
+	}
+	sort.Strings(vnames)
+	refs, calls := stateRefs(f, "NewHash")
+	q := func(xs []string) string {
+		ys := make([]string, len(xs))
+		for i, x := range xs {
+			ys[i] = gen.CoqString(x)
+		}
+		return "[" + strings.Join(ys, "; ") + "]"
+	}
+	sb.WriteString("(* lib/id62/uuid62.go: package-level variables; the ones NewHash (and the package functions it calls)\n   reads or writes; the calls NewHash makes, in source order *)\n")
+	fmt.Fprintf(&sb, "Definition package_vars : list string := %s.\n", q(vnames))
+	fmt.Fprintf(&sb, "Definition newhash_state_refs : list string := %s.\n", q(refs))
+	fmt.Fprintf(&sb, "Definition newhash_calls : list string := %s.\n", q(calls))
 	return sb.String(), nil
 }
